@@ -435,7 +435,12 @@ fn finish_current(abort: Option<Abort>) {
             None if cur.decider.rec.step_limited => Some(Abort::StepLimit(format!("more than {} scheduler steps", cur.decider.max_steps))),
             None => None,
         };
-        let done = Done { abort, completed: cur.completed, rec: cur.decider.rec, ctx };
+        let Current { body, decider, completed } = cur;
+        // release the job's closure (and whatever it shares with the driver, e.g. the robot)
+        // BEFORE the driver is told that the execution is over
+        drop(body);
+        let cur_rec = decider.rec;
+        let done = Done { abort, completed, rec: cur_rec, ctx };
         ENGINE_SIDE.with(|e| {
             if let Some(e) = e.borrow().as_ref() {
                 let _ = e.done.send(done);
